@@ -682,7 +682,7 @@ def _name(name, script, cfg):
     bits = [name, f"d{cfg['delay']}", f"ls{cfg['learning_starts']}"]
     if "tau" in cfg:
         bits.append(f"tau{cfg['tau']}")
-    for k in ("global_step", "update_frequency", "gradient_steps", "policy_delay", "use_checkpoints", "window", "threshold"):
+    for k in ("global_step", "update_frequency", "gradient_steps", "policy_delay", "use_checkpoints", "window", "threshold", "total_episodes"):
         if cfg.get(k):
             bits.append(f"{k}{cfg[k]}")
     if cfg.get("levels"):
@@ -731,6 +731,10 @@ def cadence_items(tier, seed):
         out.append(_item("ddpg", "ccUccccc", _cfg("ddpg", seed, 1, 2, 0.25, logger=True, gradient_steps=2)))
         for name in ("nature_dqn", "ddqn", "ddqn_per"):
             out.append(_item(name, "cccTcccccc", _cfg(name, seed, 3, 0, update_frequency=2)))
+        # the run ends through the episode limit on a step that is an update point: the copy due on that last step happens too
+        for name in ("nature_dqn", "ddqn", "ddqn_per"):
+            for d_, sc_, ne_ in ((1, "ccccTccc", 1), (2, "ccccTccc", 1), (3, "cccTccTc", 2)):
+                out.append(_item(name, sc_, _cfg(name, seed, d_, 0, total_episodes=ne_, global_step=0)))
         # resumed with a handed-in target; the first update point of the call comes before its first gradient step
         for name in ("nature_dqn", "ddqn", "ddqn_per"):
             out.append(_item(name, "cccTcccc", _cfg(name, seed, 3, 0, global_step=3, update_frequency=2)))
@@ -820,13 +824,15 @@ def frozen_items(tier, seed):
 def frozen_work(item, col):
     name, g = item["routine"], item["gradient_steps"]
     entry = "train_" + name
-    for tau, ls in itertools.product(item["taus"], (0, 2)):
+    for tau, ls, strip in itertools.product(item["taus"], (0, 2), (None, "policy", "q")):
         script = "cccTcc"
         cfg = dict(buffer_size=16, env_horizon=len(script) + 3, learning_starts=ls, batch_size=2, seed=1 + item["seed"], net_seed=item["seed"], delay=1,
                    tau=tau, lr=0.0, target_scale=0.5, gradient_steps=g, snap=True)
+        if strip:
+            cfg["strip_target"] = strip  # only ONE target is handed in: it is still the one that is updated (and by the rule)
         r = drivers.run(name, script, **cfg)
         col.tick(1)
-        det0 = dict(routine=entry, script=script, tau=tau, learning_starts=ls, gradient_steps=g)
+        det0 = dict(routine=entry, script=script, tau=tau, learning_starts=ls, gradient_steps=g, only_target_handed_in={None: "both", "policy": "q_target", "q": "policy_target"}[strip])
         if r.error is not None or r.result is None:
             col.violation(SIG.format(entry, K_RAISED), dict(det0, error=str(r.error)))
             continue
@@ -834,6 +840,8 @@ def frozen_work(item, col):
         for (k0, t0, a), (k1, t1, b) in zip(snaps, snaps[1:]):
             step = t0  # the interval holds the processing of the environment step with 0-based index t0
             for tname, oname in (("q_target", "q"), ("policy_target", "policy")):
+                if strip == oname:
+                    continue  # the routine made this target itself; the harness' object is not in use
                 o = np.concatenate([x.astype(np.float64).ravel() for x in arrays(a[oname])])
                 o2 = np.concatenate([x.astype(np.float64).ravel() for x in arrays(b[oname])])
                 t_old = np.concatenate([x.astype(np.float64).ravel() for x in arrays(a[tname])])
